@@ -222,6 +222,10 @@ def run_check(modname, prop, tier, seed, workers, args=None):
         pool = mpctx.Pool(min(workers, ngroups))
         results = pool.imap(_worker, jobs, chunksize=1)
     collected = {}
+    # VERIF_FAILFAST=1 (used by tools/seed_verify.py when re-running many breaking changes): stop dispatching once a
+    # violation that is not a known finding has been seen; the run is then reported as cut short (not exhaustive)
+    failfast = os.environ.get("VERIF_FAILFAST") == "1"
+    known_sigs = set(load_known()) if failfast else set()
     try:
         for idx, st, err in results:
             if err is not None:
@@ -229,6 +233,10 @@ def run_check(modname, prop, tier, seed, workers, args=None):
             else:
                 collected[idx] = st
             done += 1
+            if failfast and err is None and any(sig not in known_sigs for sig in st.violations):
+                skipped = ngroups - done
+                st.notes.append("VERIF_FAILFAST: stopped dispatching after the first group that reported a violation")
+                break
             if budget and time.time() - t0 > budget:
                 skipped = ngroups - done
                 break
